@@ -83,6 +83,22 @@ class Prop:
         for r in rules:
             for ex in rng.sample(SCALARS, 8 if tier == 'quick' else 20):
                 cs.append(Case('enumeq %s %s' % (hx(r), hx(ex)), 'named-vs-inline'))
+        # rule texts that are not lists of distinct scalars: both forms must refuse (the codes differ by construction)
+        bad_rules = [b'[1, 1]', b'["a", "\\u0061"]', b'[1.0, 1.0]', b'["1", 1, "1"]', b'[1e3]', b'[1, 2E0]', b'[[1]]', b'[{}]', b'[1,]', b'[,1]', b'[1 2]',
+                     b'[@e]', b'[1, tru]', b'["a]', b'[1', b'1', b'{}', b'[01]', b'[-]', b'[1.]', b'[null, null]', b'[true, true]', b'["a", "b", "a"]']
+        for r in bad_rules + [b'[' + a + b', ' + a + b']' for a in SCALARS[:18]]:
+            for ex in [b'1', b'"a"', b'null']:
+                cs.append(Case('enumeq %s %s' % (hx(r), hx(ex)), 'named-vs-inline-refused'))
+        # rule texts of several lines with // comments: the inline form stands in a block annotation
+        for i in range(150 if tier == 'quick' else 2000):
+            k = rng.randint(1, 4)
+            items = rng.sample(SCALARS[:18], k)
+            t = b'[' + rng.choice([b'', b'\n', b' // head\n', b'\n  // only a comment\n'])
+            for j, it in enumerate(items):
+                t += rng.choice([b'', b'  ', b'\n  ']) + it + (b',' if j + 1 < k else b'') + rng.choice([b'', b' ', b' // note %d\n' % j, b'\n'])
+            t += rng.choice([b'', b'\n']) + b']'
+            for ex in [items[0], rng.choice(SCALARS)]:
+                cs.append(Case('enumeq %s %s block' % (hx(t), hx(ex)), 'named-vs-inline-block'))
         return cs
 
     def model_lines(self, lines, impl):
@@ -123,6 +139,11 @@ class Prop:
             m = re.match(r'named=(\S+) inline=(\S+)', out)
             if not m:
                 return 'unreadable result ' + out[:120]
+            if case.klass == 'named-vs-inline-refused':
+                va, vb = m.group(1).startswith('ok'), m.group(2).startswith('ok')
+                if va or vb:
+                    return 'a rule text that is not a list of distinct scalars is accepted: named %s, inline %s' % (m.group(1), m.group(2))
+                return None
             if m.group(1) != m.group(2):
                 return 'the schema with `enum: @name` and the schema with the list inline differ: %s vs %s' % (m.group(1), m.group(2))
             # whether the example is a member of the list is the enum rule's meaning: C01's subject, not C17's
@@ -151,5 +172,5 @@ class Prop:
             trusted=['Coq 8.16.1 kernel', 'model coq/Model/EnumParse.v (a lexer and a parser for the language the state machine accepts) tied by '
                      'correspondence on verdict, literals and kinds', 'reference parser lib/oracles/enum_ref.py (regex + json.loads) as the independent oracle',
                      'extraction, driver, harness'],
-            assumptions=['comments of Values() are not compared (the statement is about the scalars)', 'the inline form is compared for one-line rule texts'],
+            assumptions=['comments of Values() are not compared (the statement is about the scalars)', 'the inline form is compared for one-line rule texts and, in a block annotation, for texts of several lines with // comments (a /* */ comment cannot stand inside a block annotation)'],
             explanation='language model with theorems; correspondence on token-exhaustive and structured texts; named-vs-inline differential')
